@@ -11,7 +11,7 @@ C16.f upper-bound start values admit every realizing sequence
 """
 import ast
 
-from ..core.flow import call_name, calls_in, single_assignments, is_name
+from ..core.flow import node_exprs, call_name, calls_in, single_assignments, is_name
 from ..core.loader import AnalysisError, short, own_nodes, norm
 from ..core.report import where
 from .C12 import facts
@@ -401,7 +401,47 @@ def rule_i(ctx, out):
         raise AnalysisError(f"simplify_memory rewrote only {n} sequences of the family")
 
 
+def rule_j(ctx, out):
+    """The stack bound is taken from the full list of stack variables.  generate_json publishes max_sk_sz = min(max(len(vars), height) - r,
+    ...) where r is the number of bottom elements removed from the specification; afterwards those r variables are also popped out of the
+    list itself.  The `max(len(<list>), ...)` must be evaluated before any statement that shortens that list in place can run — read after
+    them, the removed elements are subtracted twice and a consuming sub-block (`ADD` of `ADD LOG1 MUL`) gets a bound below its arity."""
+    f = ctx.func(f"{GO}.generate_json")
+    cfg = ctx.cfg(f)
+    n = 0
+    for node in cfg.nodes:
+        a = node.ast
+        if node.kind != "stmt" or not isinstance(a, ast.Assign):
+            continue
+        in_max = [x.args[0].id for c in calls_in(a.value) if call_name(c) == "max" for arg in c.args for x in ast.walk(arg)
+                  if isinstance(x, ast.Call) and call_name(x) == "len" and x.args and isinstance(x.args[0], ast.Name)]
+        # ... or the length is taken into a local first, and that local is an argument of a max(...)
+        via_local = []
+        if not in_max and len(a.targets) == 1 and isinstance(a.targets[0], ast.Name) and isinstance(a.value, ast.Call) and call_name(a.value) == "len" \
+                and a.value.args and isinstance(a.value.args[0], ast.Name):
+            t_ = a.targets[0].id
+            if any(call_name(c) == "max" and any(is_name(arg, t_) for arg in c.args) for c in calls_in(f.node)):
+                via_local = [a.value.args[0].id]
+        for lens in (in_max + via_local,):
+            for V in lens:
+                n += 1
+                shrink = [m for m in cfg.nodes if m is not node and m.ast is not None and any(
+                    (isinstance(x, ast.Call) and isinstance(x.func, ast.Attribute) and is_name(x.func.value, V) and x.func.attr in ("pop", "remove", "clear"))
+                    or (isinstance(x, ast.Delete) and any(isinstance(t, ast.Subscript) and is_name(t.value, V) for t in x.targets))
+                    for e in ([m.ast] if isinstance(m.ast, ast.stmt) else []) + list(node_exprs(m)) for x in ast.walk(e))]
+                early = [m for m in shrink if cfg.reaches(m, node)]
+                if early:
+                    out.bad(f"generate_json:stack-bound-read-after-the-list-is-shortened:{V}", f"generate_json computes `{short(a, 60)}` where `{short(early[0].ast, 40)}` "
+                            f"(line {early[0].ast.lineno}) has already shortened `{V}`: the elements removed from the specification are subtracted twice from max_sk_sz",
+                            where(f, a))
+                else:
+                    out.ok({"bound": short(a, 60), "list": V, "shortened_later_at": [m.ast.lineno for m in shrink][:3]})
+    if n < 1:
+        raise AnalysisError("generate_json: no `max(len(<list>), ...)` bound computation found")
+
+
 RULES = [
+    ("C16.j", "the stack bound is taken from the full variable list", 1, rule_j),
     ("C16.i", "the memory rules discount at most one instruction per store they remove", 300, rule_i),
     ("C16.h", "the instruction count behind min_length takes every store exactly once", 4, rule_h),
     ("C16.g", "a revisited instruction is charged only when it must be duplicated", 4, rule_g),
